@@ -4,7 +4,7 @@ from ..core import gz, glist
 ID = "C25"
 PROPS = ["theories/Props/C25.vo"]
 PINNED = ["C25_map_refinement", "C25_reads_latest", "C25_private", "C25_holds_outside",
-          "C25_refuted_values_leaked_on_drop"]
+          "C25_refuted_values_leaked_on_drop", "C25_live_cells_exact", "C25_no_leak_outside"]
 CASES_MODULE = "Cases.C25"
 HEADER = "From OCV Require Import Misc.Local Misc.LocalOracle."
 AREA = "local"
@@ -12,6 +12,7 @@ ISOLATE = False
 TIMEOUT_MS = 5000
 LEVEL = "proof"
 SHRINK_KEY = "ops"
+SHARD_SIZE = 40
 RULE = ("histories of put/get/get_mut/remove/drop over 1-3 real coroutines and 2-4 keys (the same keys used by "
         "several coroutines), values from the i64 extremes and random, each call made either through the handle "
         "or by the coroutine's own body through Coroutine::current(); half of the histories empty every "
@@ -80,7 +81,7 @@ def history(rng, n, nkeys, length, leaky):
 
 
 def gen(rng, tier):
-    n = {"quick": 200, "thorough": 3000, "search": 1200}[tier]
+    n = {"quick": 120, "thorough": 3000, "search": 1200}[tier]
     cases = []
     for i in range(n):
         cos = rng.choice([1, 2, 2, 3])
@@ -161,7 +162,9 @@ LEVEL_TEXT = ("Unbounded theorems (all histories of put/get/get_mut/remove/drop 
               "read returns the latest write found by scanning the history backwards, the calls of other coroutines "
               "never change what one coroutine observes (projection theorem). Release on drop is REFUTED for the "
               "current code (witness theorem, finding #27: the map is freed, the boxed values are leaked), proved "
-              "under the side condition that every coroutine is emptied before it is dropped. The model is tied to /repo by running the same "
+              "under the side condition that every coroutine is emptied before it is dropped; at the ghost level the "
+              "boxes still allocated after any history are exactly those of the values still stored plus those stored "
+              "in a coroutine at its drop (store, overwrite and remove never leak). The model is tied to /repo by running the same "
               "histories on real coroutines with drop-logging values and comparing inside Coq.")
 LEVEL_NOTE = ("Trusted: Coq kernel + vm_compute; hand-written model validated on sampled histories only; DashMap "
               "modelled as a map per operation; the drop-logging value type of the harness. Finding #27 "
